@@ -6,7 +6,7 @@ import ast
 import string
 import z3
 
-from .values import (PyRaise, Abort, Unsupported, Impure, SOpt, FinStr, SStr, OpaqueStr, UTerm, Tok,
+from .values import (PyRaise, Abort, Unsupported, Impure, SOpt, FinStr, SStr, OpaqueStr, UTerm, Tok, SymMap, SymSeq, SymElem, PairSeq,
                      EnumMember, SEnum, Obj, FuncVal, ClassVal, Prop, ClassMethod, StaticMethod,
                      BoundMethod, Builtin, ExtType, ModVal, SuperProxy, is_z3, is_symbolic)
 from .logic import And, Or, Not, If, Eq, Div, Mod
@@ -278,6 +278,8 @@ class Interp:
             return True
         if isinstance(v, OpaqueStr):
             raise Unsupported("truthiness of untracked string")
+        if isinstance(v, SymSeq):
+            return v.n > 0
         if isinstance(v, TStr):
             if any(isinstance(a, (str, tstr.Digits)) for a in v.atoms):
                 return True
@@ -496,6 +498,8 @@ class Interp:
             raise PyRaise("TypeError", "argument of type 'NoneType' is not iterable")
         if isinstance(container, (tuple, list, set, frozenset)):
             return Or(*[self.eq(item, x) for x in container]) if container else False
+        if isinstance(container, SymMap):
+            return z3.Select(container.dom, container.key(item))
         if isinstance(container, dict):
             if not is_symbolic(item) and not isinstance(item, (Obj, SOpt)):
                 try:
@@ -721,6 +725,8 @@ class Interp:
                 raise Unsupported("match.%s" % name)
         if isinstance(v, Builtin) and name in getattr(v, "attrs", {}):
             return v.attrs[name]
+        if isinstance(v, SymMap):
+            return Builtin("dict." + name, lambda it, a, k, _n=name: it.symmap_method(v, _n, a, k))
         if isinstance(v, RegexVal):
             if name == "match":
                 return Builtin("regex.match", lambda it, a, k: it.regex_match(v, a))
@@ -1045,6 +1051,24 @@ class Interp:
             return getattr(c, name)(*args)
         raise Unsupported("%s.%s" % (type(c).__name__, name))
 
+    def symmap_method(self, m, name, a, k):
+        if name == "get":
+            kk = m.key(a[0])
+            d = a[1] if len(a) > 1 else None
+            if d is None:
+                return SOpt(z3.Not(z3.Select(m.dom, kk)), z3.Select(m.val, kk))
+            return If(z3.Select(m.dom, kk), z3.Select(m.val, kk), self.toreal(d))
+        if name == "setdefault":
+            kk = m.key(a[0])
+            d = self.toreal(a[1])
+            newv = If(z3.Select(m.dom, kk), z3.Select(m.val, kk), d)
+            m.val = z3.Store(m.val, kk, newv)
+            m.dom = z3.Store(m.dom, kk, z3.BoolVal(True))
+            return newv
+        if name == "pop" or name == "clear" or name == "update":
+            raise Unsupported("dict.%s on a symbolic map" % name)
+        raise Unsupported("dict.%s on a symbolic map" % name)
+
     def list_sort(self, lst, key, reverse):
         """list.sort: stable insertion sort on a list of known length; symbolic comparisons fork"""
         if reverse not in (False, True):
@@ -1105,6 +1129,20 @@ class Interp:
             v = self.unwrap(v, "TypeError", "'NoneType' object is not subscriptable")
         if v is None:
             raise PyRaise("TypeError", "'NoneType' object is not subscriptable")
+        if isinstance(v, SymSeq):
+            idx = self.unwrap(idx)
+            if isinstance(idx, slice):
+                raise Unsupported("slice of an abstract sequence")
+            if self.branch(Not(And(idx >= -v.n, idx < v.n))):
+                raise PyRaise("IndexError", "index out of range")
+            if self.branch(idx < 0):
+                idx = idx + v.n
+            return SymElem(v, self.simp(idx))
+        if isinstance(v, SymMap):
+            kk = v.key(idx)
+            if self.branch(z3.Not(z3.Select(v.dom, kk))):
+                raise PyRaise("KeyError", "key not in dict")
+            return z3.Select(v.val, kk)
         if isinstance(v, dict):
             if is_symbolic(idx) or isinstance(idx, (Obj, SOpt)):
                 return self.dict_lookup(v, idx)
@@ -1178,6 +1216,11 @@ class Interp:
     def _call(self, f, args, kwargs):
         if isinstance(f, SOpt):
             f = self.unwrap(f, "TypeError", "'NoneType' object is not callable")
+        if isinstance(f, SymElem):
+            app = getattr(self, "apply_elem", None)
+            if app is None:
+                raise Unsupported("call of an abstract sequence element")
+            return app(self, f, args, kwargs)
         if isinstance(f, Builtin):
             if f.name in ("list", "set", "sorted", "tuple", "reversed") and args and isinstance(args[0], UTerm):
                 return UTerm(f.name, list(args))
@@ -1286,7 +1329,8 @@ class Interp:
             return self.eval(f.node.body, fr)
         is_gen = self.world.is_generator(f.node)
         if is_gen:
-            fr.yielded = []
+            mk = getattr(self, "yield_container", None)
+            fr.yielded = mk(f) if mk is not None else []
         try:
             self.exec_block(f.node.body, fr)
             rv = None
@@ -1387,6 +1431,11 @@ class Interp:
             raise Unsupported("assignment target %s" % type(t).__name__)
 
     def store_subscript(self, o, i, v, node):
+        if isinstance(o, SymMap):
+            kk = o.key(i)
+            o.val = z3.Store(o.val, kk, self.toreal(v))
+            o.dom = z3.Store(o.dom, kk, z3.BoolVal(True))
+            return
         if isinstance(o, (list, dict)):
             if id(o) in self.world.global_container_ids:
                 self.events.append(("frame", "store into module-level container", getattr(node, "lineno", None)))
@@ -1422,12 +1471,14 @@ class Interp:
             self.exec_block(s.orelse, fr)
 
     def x_While(self, s, fr):
-        # only loops whose condition stays concrete (or that are given an invariant elsewhere)
+        lc = self.loop_contract(fr, s)
         n = 0
         while True:
             c = self.truthy(self.eval(s.test, fr))
-            if is_z3(c):
-                raise Unsupported("while loop with symbolic condition needs an invariant (line %d)" % s.lineno)
+            if is_z3(c) or lc is not None:
+                if lc is None:
+                    raise Unsupported("while loop with symbolic condition needs an invariant (line %d)" % s.lineno)
+                return self.while_with_invariant(s, fr, lc)
             if not c:
                 break
             n += 1
@@ -1440,6 +1491,92 @@ class Interp:
             except ContinueSig:
                 continue
         self.exec_block(s.orelse, fr)
+
+    # ------------------------------------------------------------------ loops with invariants
+    def loop_contract(self, fr, node):
+        lcs = getattr(self, "loop_contracts", None)
+        if not lcs:
+            return None
+        f = fr.func
+        whiles = sorted((n for n in ast.walk(f.node) if isinstance(n, ast.While)), key=lambda n: (n.lineno, n.col_offset))
+        k = whiles.index(node) if node in whiles else -1
+        return lcs.get((f.qualname, k))
+
+    def assert_ob(self, name, goal, props):
+        """an obligation that must hold at this program point on this path (checked now)"""
+        log = self.__dict__.setdefault("ob_log", [])
+        if goal is True:
+            log.append((name, props, "unsat", None))
+            return
+        g = z3.BoolVal(False) if goal is False else goal
+        self.solver.push()
+        self.solver.set("timeout", 60000)
+        self.solver.add(z3.Not(g))
+        r = self.solver.check()
+        model = self.solver.model() if r == z3.sat else None
+        self.solver.pop()
+        self.solver.set("timeout", 4000)
+        log.append((name, props, "unsat" if r == z3.unsat else ("sat" if r == z3.sat else "unknown"), model))
+
+    def havoc_loop_state(self, s, fr, tag):
+        names = set()
+        for n in ast.walk(ast.Module(body=s.body, type_ignores=[])):
+            if isinstance(n, ast.Name) and isinstance(n.ctx, ast.Store):
+                names.add(n.id)
+        for nm in sorted(names):
+            v, ok = fr.lookup(nm)
+            if not ok:
+                continue
+            if isinstance(v, bool) or not (isinstance(v, int) or (is_z3(v) and z3.is_int(v))):
+                raise Unsupported("loop modifies '%s' of a kind the engine cannot havoc" % nm)
+            fr.vars[nm] = self.fresh_int("%s@%s" % (nm, tag))
+        g = self.gen_frame(fr)
+        if g is not None and isinstance(g.yielded, PairSeq) and any(isinstance(n, ast.Yield) for n in ast.walk(ast.Module(body=s.body, type_ignores=[]))):
+            self.nfresh += 1
+            g.yielded = PairSeq("%s@%s!%d" % (g.yielded.name.split("@")[0], tag, self.nfresh))
+            self.assume(g.yielded.n >= 0)
+        has_yield = any(isinstance(n, ast.Yield) for n in ast.walk(ast.Module(body=s.body, type_ignores=[])))
+        for gname, gv in list(self.ghost.get("state", {}).items() if has_yield else []):
+            self.nfresh += 1
+            self.ghost["state"][gname] = z3.Array("%s@%s!%d" % (gname, tag, self.nfresh), z3.IntSort(), z3.IntSort())
+
+    def gen_frame(self, fr):
+        f = fr
+        while f is not None and f.yielded is None:
+            f = f.parent
+        return f
+
+    def while_with_invariant(self, s, fr, lc):
+        """cut-point rule: establish the invariant, then either (a) an arbitrary iteration preserves
+        it (path is cut there) or (b) leave the loop from an arbitrary state satisfying inv and not cond"""
+        tag = "L%d" % s.lineno
+        for cname, goal in lc.invariant(self, fr):
+            self.assert_ob("loop@%d:inv-init:%s" % (s.lineno, cname), goal, lc.props)
+        self.havoc_loop_state(s, fr, tag)
+        for cname, goal in lc.invariant(self, fr):
+            self.assume(goal if goal is not True else True)
+        c = self.truthy(self.eval(s.test, fr))
+        if self.branch(c):
+            v0 = lc.variant(self, fr) if lc.variant else None
+            try:
+                self.exec_block(s.body, fr)
+            except ContinueSig:
+                pass
+            except BreakSig:
+                raise Unsupported("break inside a loop with invariant")
+            if getattr(lc, "hints", None):
+                # ground instances of quantified facts that are already assumed on this path
+                for h in lc.hints(self, fr):
+                    self.assume(h)
+            for cname, goal in lc.invariant(self, fr):
+                self.assert_ob("loop@%d:inv-preserved:%s" % (s.lineno, cname), goal, lc.props)
+            if v0 is not None:
+                v1 = lc.variant(self, fr)
+                self.assert_ob("loop@%d:variant-decreases" % s.lineno, z3.And(v0 >= 0, v1 < v0), lc.props)
+            self.cut = True
+            raise Abort()
+        if s.orelse:
+            self.exec_block(s.orelse, fr)
 
     def x_Break(self, s, fr):
         raise BreakSig()
@@ -1831,7 +1968,11 @@ class Interp:
             f = f.parent
         if f is None:
             raise Unsupported("yield outside generator")
-        f.yielded.append(self.eval(e.value, fr) if e.value is not None else None)
+        v = self.eval(e.value, fr) if e.value is not None else None
+        hook = getattr(self, "on_yield", None)
+        if hook is not None:
+            hook(self, f, v)
+        f.yielded.append(v)
         return None
 
     def e_Starred(self, e, fr):
